@@ -126,7 +126,12 @@ def nameStep (line : String) : String :=
       let a := absNameS (clientNsS (d ns)) (d k)
       let r3 := r2.1.get 0 a
       let reg := match r3.1.isRegistered 0 (d k) none with | .bool true => a | _ => "KeyError"
-      "R " ++ String.intercalate "|" [resStr r0.2, resStr r1.2, resStr r2.2, resStr r3.2, resStr (r3.1.sget a), reg]
+      -- dotted access through the client's own namespace: the relative key d/e, written by attribute, read as c.d.e
+      let r4 := r3.1.register 0 "d/e" (some .write) false none
+      let r5 := r4.1.setattr 0 "d/e" (.int 3)
+      let r6 := r5.1.dotGet 0 ["d", "e"]
+      "R " ++ String.intercalate "|" [resStr r0.2, resStr r1.2, resStr r2.2, resStr r3.2, resStr (r3.1.sget a), reg,
+                                      resStr r6.2]
   | ["cshare", nsA, kA, nsB, kB] =>
       -- two clients: A writes 1 through kA, B writes 2 through kB, A reads: same location iff same absolute name
       let s0 : BB := ({} : BB).newClient (d nsA) |>.1
